@@ -68,3 +68,19 @@ Definition lm_lease (index : nat) (r : ecode) : Z * list levent :=
   | ELeaseAlreadyPresent => (0, [LFailed index])
   | _ => (0, [LError])
   end.
+
+(* ---------- v1 ProvisionedResource (provisioned-resource.go): a fixed capacity, no partitions ----------
+   Capacity() and MaxCapacity() are the configured value at every moment; Start raises one capacity event with
+   that value, Stop one shutdown event, Provision and GiveMe do nothing. *)
+Inductive prov_op := POProvision | POStart | POStop | POGiveMe.
+Inductive prov_ev := PECapacity (v : Z) | PEShutdown.
+
+Definition prov_step (m : Z) (o : prov_op) : list prov_ev :=
+  match o with
+  | POStart => [PECapacity m]
+  | POStop => [PEShutdown]
+  | POProvision | POGiveMe => []
+  end.
+
+Definition prov_capacity (m : Z) : Z := m.
+Definition prov_max_capacity (m : Z) : Z := m.
